@@ -10,7 +10,7 @@ import numpy as np
 import pandas as pd
 
 from . import refsim, interp
-from .common import digest
+from .common import scribble, digest
 
 refsim.install()
 from . import probes  # noqa: E402
@@ -108,6 +108,7 @@ def replay_case(arg):
                 ctrl.set_population_model(population_model(mode))
             ctrl.set_data(frame, output_observable_dict={OUTPUTS[0]: 'Obs A', OUTPUTS[1]: 'Obs B'},
                           covariate_dict=({'W': 'Weight'} if mode == 'popcov' else None))
+            scribble(ctrl, ('get_parameter_names', 'get_covariate_names', 'get_dosing_regimens'))
             n = ctrl.get_n_parameters()
             pri = [pints.GaussianLogPrior(1.0 + 0.05 * k, 1.5) for k in range(n)]
             ctrl.set_log_prior(pints.ComposedLogPrior(*pri))
